@@ -188,7 +188,19 @@ def jobs_for(tier):
     # reduced-precision communication (one step from a common state): replicas identical, deviation = rounding of the communicated quantity
     add([(4, 2), (3,)], 1, hybrid=dict(replicate=2, group=2, comm="BF16"), graft=None, T=1, sps=1, fixed=dict(mom=0))
     add([(4, 2), (2,)], 2, hybrid=dict(replicate=2, group=2, comm="FP16", communicate_params=True), graft="sgd", T=1, sps=1, fixed=dict(mom=0, wd=0))
+    # num_trainers_per_group a proper divisor of the replicate size: several distribution groups inside one replicate group
+    add([(4, 2), (3,)], 1, hybrid=dict(replicate=2, group=1), graft=None, fixed=dict(mom=0, wd=0))
     if tier == "thorough":
+        # every distribution of 0..4 rows of a (R, 2) parameter over three shard ranks (ranks without rows included); a second parameter with one row per rank
+        # keeps every rank busy (a rank without any parameter is rejected by design); grafting configurations in rotation
+        rot = [dict(graft=None, fixed=dict(mom=0, wd=0)), dict(graft="sgd", fixed=dict(mom=0)), dict(graft="adagrad", fixed=dict(mom=0, wd=0)), dict(graft="adam", fixed=dict(wd=0))]
+        k = 0
+        for R in range(1, 5):
+            for r0 in range(R + 1):
+                for r1 in range(R + 1 - r0):
+                    add([(R, 2), (3, 1)], 3, row_sizes={"0": [r0, r1, R - r0 - r1], "1": [1, 1, 1]}, T=1 if k % 3 else 2, **rot[k % 4])
+                    k += 1
+        add([(4, 2), (3,), (2,)], 1, hybrid=dict(replicate=4, group=2), graft="sgd", fixed=dict(mom=0))
         add([(5, 2), (4,), (1, 3)], 4, graft=None, fixed=dict(mom=0))  # every rank keeps at least one non-empty local shard
         add([(4, 3)], 2, row_sizes={"0": [1, 3]}, graft="adagrad")
         add([(4, 2), (2, 2), (2,)], 2, presence="symbolic", graft="adam", fixed=dict(wd=0))
